@@ -24,7 +24,7 @@ package v1
 // KNOWN FINDING F-C05-1: the application check runs after the read lock has been released.
 //@ func TxMempool.CheckTx
 //@   requires free: unlocked(txmp.mtx)
-//@   requires pool: wfPool(txmp)
+//@   requires pool: wfPool1(txmp)
 //@   atcall AppConnMempool.CheckTxSync guarded: rholds(txmp.mtx)
 
 // ---- C12: the priority mempool holds each transaction at most once; admission, recheck, limits ----
@@ -32,17 +32,17 @@ package v1
 //@ import abci github.com/tendermint/tendermint/abci/types
 //@ import cfg github.com/tendermint/tendermint/config
 
-// txOf(e): the transaction carried by list element e; keyOf(tx): its key (sha256).
-//@ spec func txOf(e *clist.CElement) []byte = cast(*WrappedTx, payload(e.Value)).tx
-//@ spec func keyOf(tx []byte) []byte = sha256sum(tx)
+// txOf1(e): the transaction carried by list element e; keyOf1(tx): its key (sha256).
+//@ spec func txOf1(e *clist.CElement) []byte = cast(*WrappedTx, payload(e.Value)).tx
+//@ spec func keyOf1(tx []byte) []byte = sha256sum(tx)
 // Representation invariant: the key index and the list describe the same set of transactions.
-//@ spec func listInMap(txmp *TxMempool) bool =
+//@ spec func listInMap1(txmp *TxMempool) bool =
 //@   | forall(e, (e != 0 && cast(*clist.CElement, e).owner == txmp.txs) ==>
-//@   |   (payload(cast(*clist.CElement, e).Value) != 0 && has(txmp.txByKey, keyOf(txOf(cast(*clist.CElement, e)))) && ref(txmp.txByKey[keyOf(txOf(cast(*clist.CElement, e)))]) == e))
-//@ spec func mapInList(txmp *TxMempool) bool =
+//@   |   (payload(cast(*clist.CElement, e).Value) != 0 && has(txmp.txByKey, keyOf1(txOf1(cast(*clist.CElement, e)))) && ref(txmp.txByKey[keyOf1(txOf1(cast(*clist.CElement, e)))]) == e))
+//@ spec func mapInList1(txmp *TxMempool) bool =
 //@   | forall(k, has(txmp.txByKey, k) ==>
-//@   |   (txmp.txByKey[k] != nil && txmp.txByKey[k].owner == txmp.txs && payload(txmp.txByKey[k].Value) != 0 && keyOf(txOf(txmp.txByKey[k])) == k))
-//@ spec func wfPool(txmp *TxMempool) bool = txmp.txs != nil && txmp.config != nil && listInMap(txmp) && mapInList(txmp)
+//@   |   (txmp.txByKey[k] != nil && txmp.txByKey[k].owner == txmp.txs && payload(txmp.txByKey[k].Value) != 0 && keyOf1(txOf1(txmp.txByKey[k])) == k))
+//@ spec func wfPool1(txmp *TxMempool) bool = txmp.txs != nil && txmp.config != nil && listInMap1(txmp) && mapInList1(txmp)
 
 // ASSUMED frames: hooks, metrics, logging and the cache do not touch the pool.
 //@ extern TxMempool.postCheck
@@ -68,42 +68,42 @@ package v1
 //@ func TxMempool.insertTx
 //@   assigns except(v1.WrappedTx, abci, cfg)
 //@   ensures same: txmp.txs == old(txmp.txs) && txmp.config == old(txmp.config)
-//@   requires fresh: wtx != nil && txmp.txs != nil && !has(txmp.txByKey, keyOf(wtx.tx))
-//@   ensures wf: old(wfPool(txmp)) ==> wfPool(txmp)
-//@   ensures added: has(txmp.txByKey, keyOf(wtx.tx)) && txmp.txs.len == old(txmp.txs.len) + 1 && txmp.txsBytes == old(txmp.txsBytes) + len(wtx.tx)
-//@   ensures others: forall(k, k != keyOf(wtx.tx) ==> (has(txmp.txByKey, k) <==> old(has(txmp.txByKey, k))))
+//@   requires fresh: wtx != nil && txmp.txs != nil && !has(txmp.txByKey, keyOf1(wtx.tx))
+//@   ensures wf: old(wfPool1(txmp)) ==> wfPool1(txmp)
+//@   ensures added: has(txmp.txByKey, keyOf1(wtx.tx)) && txmp.txs.len == old(txmp.txs.len) + 1 && txmp.txsBytes == old(txmp.txsBytes) + len(wtx.tx)
+//@   ensures others: forall(k, k != keyOf1(wtx.tx) ==> (has(txmp.txByKey, k) <==> old(has(txmp.txByKey, k))))
 
 // removeTxByElement: the key of the element's transaction leaves the index, no other key is touched; if the element was
 // in the list, list and index stay in step and count and bytes shrink by it.
 //@ func TxMempool.removeTxByElement
 //@   assigns except(v1.WrappedTx, abci, cfg)
 //@   ensures same: txmp.txs == old(txmp.txs) && txmp.config == old(txmp.config)
-//@   ensures wf: old(wfPool(txmp) && elt.owner == txmp.txs) ==> wfPool(txmp)
-//@   ensures gone: !has(txmp.txByKey, keyOf(old(txOf(elt))))
-//@   ensures sizes: old(elt.owner == txmp.txs) ==> (txmp.txs.len == old(txmp.txs.len) - 1 && txmp.txsBytes == old(txmp.txsBytes) - len(old(txOf(elt))))
-//@   ensures others: forall(k, k != keyOf(old(txOf(elt))) ==> (has(txmp.txByKey, k) <==> old(has(txmp.txByKey, k))))
+//@   ensures wf: old(wfPool1(txmp) && elt.owner == txmp.txs) ==> wfPool1(txmp)
+//@   ensures gone: !has(txmp.txByKey, keyOf1(old(txOf1(elt))))
+//@   ensures sizes: old(elt.owner == txmp.txs) ==> (txmp.txs.len == old(txmp.txs.len) - 1 && txmp.txsBytes == old(txmp.txsBytes) - len(old(txOf1(elt))))
+//@   ensures others: forall(k, k != keyOf1(old(txOf1(elt))) ==> (has(txmp.txByKey, k) <==> old(has(txmp.txByKey, k))))
 //@ func TxMempool.removeTxByKey
-//@   requires wf: wfPool(txmp)
-//@   ensures wf: wfPool(txmp)
+//@   requires wf: wfPool1(txmp)
+//@   ensures wf: wfPool1(txmp)
 //@   ensures gone: !has(txmp.txByKey, key)
 //@   ensures others: forall(k, k != key ==> (has(txmp.txByKey, k) <==> old(has(txmp.txByKey, k))))
 
 // Recheck result: only removals; a transaction the application (or the post-check) now rejects is gone.
 //@ func TxMempool.handleRecheckResult
-//@   requires wf: wfPool(txmp)
-//@   ensures wf: wfPool(txmp)
+//@   requires wf: wfPool1(txmp)
+//@   ensures wf: wfPool1(txmp)
 //@   ensures only_removals: forall(k, has(txmp.txByKey, k) ==> old(has(txmp.txByKey, k)))
-//@   ensures rejected: checkTxRes.Code != 0 ==> !has(txmp.txByKey, keyOf(tx))
+//@   ensures rejected: checkTxRes.Code != 0 ==> !has(txmp.txByKey, keyOf1(tx))
 
 // A new transaction enters the pool only if the application's code is OK and the post-check passed, only if its key is
 // not in the pool already (fix F-C12-3) - also after evictions - and through insertTx alone; when no eviction is needed
 // the representation invariant and both limits are kept. (With evictions the invariant is not decided: that the
 // victims collected by one traversal of the list are pairwise distinct needs a model of the list's order.)
 //@ func TxMempool.addNewTransaction
-//@   requires wf: wfPool(txmp) && wtx != nil && checkTxRes != nil
+//@   requires wf: wfPool1(txmp) && wtx != nil && checkTxRes != nil
 //@   atcall TxMempool.insertTx accepted: checkTxRes.Code == 0 && err == nil
 //@   atcall TxMempool.insertTx same: arg1 == wtx
-//@   ensures wf: old(txmp.txs.len < txmp.config.Size && len(wtx.tx) + txmp.txsBytes <= txmp.config.MaxTxsBytes) ==> wfPool(txmp)
+//@   ensures wf: old(txmp.txs.len < txmp.config.Size && len(wtx.tx) + txmp.txsBytes <= txmp.config.MaxTxsBytes) ==> wfPool1(txmp)
 //@   ensures limits: old(txmp.txs.len < txmp.config.Size && len(wtx.tx) + txmp.txsBytes <= txmp.config.MaxTxsBytes && txmp.txsBytes <= txmp.config.MaxTxsBytes) ==> (txmp.txs.len <= txmp.config.Size && txmp.txsBytes <= txmp.config.MaxTxsBytes)
-//@   loop 1 invariant keep: txmp.txs != nil && !has(txmp.txByKey, keyOf(wtx.tx))
-//@   loop 2 invariant keep: txmp.txs != nil && !has(txmp.txByKey, keyOf(wtx.tx))
+//@   loop 1 invariant keep: txmp.txs != nil && !has(txmp.txByKey, keyOf1(wtx.tx))
+//@   loop 2 invariant keep: txmp.txs != nil && !has(txmp.txByKey, keyOf1(wtx.tx))
